@@ -513,6 +513,9 @@ def mpi_from_str(s, prec):
                 z, e = z.split(']')
             else:
                 z, e = z.rstrip(']'), ''
+            if x.startswith('-'):
+                # negative number: the larger digits give the lower endpoint
+                y, z = z, y
             a = from_str(x+y+e, prec, round_floor)
             b = from_str(x+z+e, prec, round_ceiling)
             return a, b
